@@ -13,7 +13,7 @@ func init() { registry["C09"] = propC09 }
 func propC09() *Property {
 	return &Property{
 		ID:          "C09",
-		Explanation: "Static path-fact rules on the three gatekeepers and their wiring. Decided: (R1) the closure that constructs outbox entries returns the activity only on paths that know the owning actor's id is non-nil and that activity.ActorIdentifier().String() equals it; every other return is a NewFailure item, never nil (impostors appear in place as error items); (R2) the same for replies with comment.ParentIdentifier() and the post's id; (R3) wiring: the \"outbox\" collection receives R1's closure and \"replies\"/\"comments\" receive R2's, Collection.construct is stored only from the constructor's parameter, every delivered element of a page is construct(elements[k], c.id) stored at its own slot and following pages inherit the same construct; (R4) NewPostFromObject succeeds only after a loop over all creators (after the fan-out joined) in which every *Actor either has a nil id together with a nil post id, or both non-nil with equal Host — everything else reaches the 'forged creators' error; (R5) the identifier accessors return the validated id fields and nothing else. (R3, addition) every non-nil result of NewCollectionFromObject is the allocation of that call, with the caller's construct stored into it. (R4, addition) the creators loop is left towards a success return only from its header, when the range is exhausted (no break that lets later creators escape the check). (R6) what the gatekeepers let through is added to the page it was loaded for (in-flight flag pairing; the instances of C08.R9). Not decided: end-to-end behaviour on generated worlds; that string equality of URLs is the right notion of identity.",
+		Explanation: "Static path-fact rules on the three gatekeepers and their wiring. Decided: (R1) the closure that constructs outbox entries returns the activity only on paths that know the owning actor's id is non-nil and that activity.ActorIdentifier().String() equals it; every other return is a NewFailure item, never nil (impostors appear in place as error items); (R2) the same for replies with comment.ParentIdentifier() and the post's id; (R3) wiring: the \"outbox\" collection receives R1's closure and \"replies\"/\"comments\" receive R2's, Collection.construct is stored only from the constructor's parameter, every delivered element of a page is construct(elements[k], c.id) stored at its own slot and following pages inherit the same construct; (R4) NewPostFromObject succeeds only after a loop over all creators (after the fan-out joined) in which every *Actor either has a nil id together with a nil post id, or both non-nil with equal Host — everything else reaches the 'forged creators' error; (R5) the identifier accessors return the validated id fields and nothing else. (R3, addition) every non-nil result of NewCollectionFromObject is the allocation of that call, with the caller's construct stored into it. (R4, addition) the creators loop is left towards a success return only from its header, when the range is exhausted (no break that lets later creators escape the check). (R6) what the gatekeepers let through is added to the page it was loaded for (in-flight flag pairing; the instances of C08.R9). (R8) what getActors lists as authors and recipients comes from NewActor or NewFailure only: the same-host test of the creators looks at actors. Not decided: end-to-end behaviour on generated worlds; that string equality of URLs is the right notion of identity.",
 		Assumptions: []string{"the ids compared are the validated ids established by C02"},
 		Rules: []Rule{
 			{ID: "C09.R1", Title: "outbox gatekeeper compares the activity's actor with the owner", Floor: 2, Run: func(c *Ctx) { c09Gate(c, "NewActorFromObject", "NewActivity", "ActorIdentifier") }},
@@ -22,6 +22,7 @@ func propC09() *Property {
 			{ID: "C09.R4", Title: "authors live on the post's host", Floor: 1, Run: c09R4},
 			{ID: "C09.R5", Title: "identifier accessors return validated ids only", Floor: 5, Run: c09R5},
 			{ID: "C09.R6", Title: "checked replies and timeline entries are added to the page they were loaded for (same instances as C08.R9)", Floor: 8, Run: c08R9},
+			{ID: "C09.R8", Title: "the authors and recipients of a post are actors or error items: what getActors puts into its list comes from NewActor or NewFailure, nothing else — the same-host test of the creators looks at actors only", Floor: 1, Run: c09R8},
 			{ID: "C09.R7", Title: "the ids the gatekeepers compare are ids the documents carry: FetchUnknown never invents one (same instances as C02.R3)", Floor: 4, Run: c02R3},
 		},
 	}
@@ -621,4 +622,102 @@ func c09R5(c *Ctx) {
 		}
 	}
 	_ = types.Typ
+}
+
+// c09R8: NewPostFromObject checks the host of every creator that is an
+// *Actor and lets everything else pass as "necessarily a Failure". That is
+// only true while getActors builds its list from NewActor (an actor or an
+// error) and NewFailure: were another constructor used (NewTangible also
+// returns posts and activities), an object of another kind on a foreign host
+// would be shown as the author unchecked (seed C09-2r12).
+func c09R8(c *Ctx) {
+	P := c.P
+	fn := P.Func("servitor/pub", "getActors")
+	fname := FuncName(fn)
+	fns := append([]*ssa.Function{fn}, fn.AnonFuncs...)
+	// helpers of the package that are handed a slot of the list (or the list) to fill
+	for _, f := range append([]*ssa.Function{}, fns...) {
+		eachInstr(f, func(_ *ssa.BasicBlock, _ int, in ssa.Instruction) {
+			cc := callOf(in)
+			if cc == nil {
+				return
+			}
+			sc := cc.StaticCallee()
+			if sc == nil || P.PkgOf(sc) != "servitor/pub" || sc.Name() == "NewActor" || sc.Name() == "NewFailure" {
+				return
+			}
+			for _, p := range sc.Params {
+				t := p.Type()
+				if pt, ok := t.Underlying().(*types.Pointer); ok && isNamed(pt.Elem(), "servitor/pub", "Tangible") {
+					fns = append(fns, sc)
+				} else if sl, ok := t.Underlying().(*types.Slice); ok && isNamed(sl.Elem(), "servitor/pub", "Tangible") {
+					fns = append(fns, sc)
+				}
+			}
+		})
+	}
+	n := 0
+	for _, f := range fns {
+		eachInstr(f, func(_ *ssa.BasicBlock, _ int, in ssa.Instruction) {
+			st, ok := in.(*ssa.Store)
+			if !ok {
+				return
+			}
+			slot := false
+			addr := unwrapLoad(st.Addr) // a slot pointer kept in a local (`slot := &output[i]`) is that slot
+			if ia, ok := addr.(*ssa.IndexAddr); ok {
+				if sl, ok := ia.X.Type().Underlying().(*types.Slice); ok && isNamed(sl.Elem(), "servitor/pub", "Tangible") {
+					slot = true
+				}
+			}
+			if p, ok := addr.(*ssa.Parameter); ok {
+				if pt, ok := p.Type().Underlying().(*types.Pointer); ok && isNamed(pt.Elem(), "servitor/pub", "Tangible") {
+					slot = true
+				}
+			}
+			if !slot {
+				return
+			}
+			n++
+			why := ""
+			var origin func(v ssa.Value, d int) bool
+			origin = func(v ssa.Value, d int) bool {
+				if d > 6 {
+					return false
+				}
+				switch x := unwrapLoad(v).(type) {
+				case *ssa.MakeInterface:
+					return origin(x.X, d+1)
+				case *ssa.ChangeInterface:
+					return origin(x.X, d+1)
+				case *ssa.Phi:
+					for _, e := range x.Edges {
+						if !origin(e, d+1) {
+							return false
+						}
+					}
+					return true
+				case *ssa.Extract:
+					return origin(x.Tuple, d+1)
+				case *ssa.Call:
+					if sc := x.Call.StaticCallee(); sc != nil && P.PkgOf(sc) == "servitor/pub" && (sc.Name() == "NewActor" || sc.Name() == "NewFailure" || sc.Name() == "NewActorFromObject") {
+						return true
+					}
+					if sc := x.Call.StaticCallee(); sc != nil {
+						why = "it comes from " + FuncName(sc)
+					}
+				}
+				return false
+			}
+			okV := origin(st.Val, 0)
+			if !okV && why == "" {
+				why = "its origin is not a constructor call"
+			}
+			c.check(okV, fname+"/element", P.InstrPos(in), FuncName(f), "an actor (NewActor) or an error item (NewFailure)",
+				"what is listed as an author or recipient is not the result of NewActor or NewFailure ("+why+"): an item of another kind passes the same-host test of the creators, which looks at actors only, and its name is shown as the author")
+		})
+	}
+	if n == 0 {
+		c.bad(fname+"/element", P.Pos(fn.Pos()), fname, "getActors no longer fills a list of items element by element")
+	}
 }
